@@ -445,6 +445,16 @@ def standard_run(ctx, module, theorems, bins, streams_fn, rule, trusted_extra=No
         try:
             streams_fn(ctx)
         except Exception as e:  # harness crash, driver desync …
+            msg = str(e)
+            m = re.match(r"harness (\S+) (\[.*?\]) failed rc=(-\d+): (.*)", msg, re.S)
+            if m:
+                # the harness process was KILLED (stack overflow, abort, memory watchdog) while the implementation was
+                # running inputs of this stream: the library aborted its host. The command reproduces it, so this is a
+                # concrete failing input, not only a broken correspondence (never happens on the unchanged tree)
+                report_case(ctx, {"stream": "harness-run", "request": "harness %s %s" % (m.group(1), m.group(2)),
+                                  "impl": "killed by signal %s: %s" % (m.group(3)[1:], m.group(4)[-600:].strip()),
+                                  "model": None, "spec_request": None,
+                                  "spec": "the harness completes (the library never aborts or overflows the host)"})
             report_broken(ctx, "correspondence-run", repr(e)[:3000])
     if ctx.tier == "thorough" and not broken:
         lok, llog = leanchecker(module)
